@@ -12,8 +12,12 @@ import (
 // request in a two-request pipeline, whether it is a single-key request or a fragment of a split
 // MGET, and when the other replies arrive.
 //   split: 0 single GET, 1 MGET over both nodes (the fragment for B is redirected)
-func HarnessC13(split int) {
-	w, _ := verifWorld2(core.VerifDefaultOptions())
+//   conns: connections per backend node (redis.server_connections); with more than one the pool hands
+//          out a different connection on every Get, and ASKING only counts on the connection it was sent on
+func HarnessC13(split, conns int) {
+	o := core.VerifDefaultOptions()
+	o.RedisServerConnections = conns
+	w, _ := verifWorld2(o)
 	w.AddPool("C:1", false) // a known node that owns nothing yet (the redirect target)
 	c := w.NewClient("10.0.0.1:5000")
 	kb := []byte{'{', 'a', '}', verifrt.Byte("key")} // slot 15495 -> B
@@ -38,8 +42,8 @@ func HarnessC13(split int) {
 	}
 	w.Feed(c, append(append([]byte{}, reqs[0].bytes...), reqs[1].bytes...))
 	w.RunTasks()
-	verifrt.Assert(len(w.ByAddr["B:1"]) == 1 && len(w.ByAddr["A:1"]) == 1, "both_nodes_contacted")
-	A, B := w.ByAddr["A:1"][0], w.ByAddr["B:1"][0]
+	verifrt.Assert(len(w.ByAddr["B:1"]) == 1 && len(w.ByAddr["A:1"]) >= 1, "both_nodes_contacted")
+	B := w.ByAddr["B:1"][0]
 
 	redirect := "-MOVED 15495 " + target + "\r\n"
 	if ask {
@@ -48,9 +52,11 @@ func HarnessC13(split int) {
 	// B answers its only request with the redirect; A's replies may come before or after
 	aFirst := verifrt.Bool("a_answers_first")
 	answerA := func() {
-		_, got := core.VerifRedisParse(w.Sent(A))
-		for _, g := range got {
-			w.Feed(A, replyFor(g))
+		for _, A := range w.ByAddr["A:1"] {
+			_, got := core.VerifRedisParse(w.Sent(A))
+			for _, g := range got {
+				w.Feed(A, replyFor(g))
+			}
 		}
 	}
 	if aFirst {
@@ -79,8 +85,16 @@ func HarnessC13(split int) {
 		verifrt.Cover("end", true)
 		return
 	}
-	verifrt.Assert(len(w.ByAddr["C:1"]) == 1, "request_resent_to_named_node")
-	C := w.ByAddr["C:1"][0]
+	verifrt.Assert(len(w.ByAddr["C:1"]) >= 1, "request_resent_to_named_node")
+	// exactly one connection to the named node carries the re-sent request - together with its ASKING
+	var C *core.VerifConn
+	for _, cc := range w.ByAddr["C:1"] {
+		if len(w.Sent(cc)) > 0 {
+			verifrt.Assert(C == nil, "asking_and_request_travel_on_one_connection")
+			C = cc
+		}
+	}
+	verifrt.Assert(C != nil, "request_resent_to_named_node")
 	gotC := w.Sent(C)
 	verifrt.ObserveBytes("to_target", gotC)
 	// what the target must receive: [ASKING] + the redirected request/fragment, exactly once
@@ -124,5 +138,5 @@ func HarnessC13(split int) {
 }
 
 func init() {
-	verifrt.Register("HarnessC13", func(p []int64) { HarnessC13(int(p[0])) })
+	verifrt.Register("HarnessC13", func(p []int64) { HarnessC13(int(p[0]), int(p[1])) })
 }
